@@ -115,6 +115,9 @@ pub enum Op {
     ForPush { h: usize, n: u64 },
     /// script `for x in l { if x == v { return i } i = i + 1 } i` (leaves the loop early)
     ForFind { h: usize, v: MVal },
+    /// script `Some([a, a, pick(c, a)?])`: a list literal one of whose element expressions leaves
+    /// the function early (`?` on `None` when `some` is false) after two elements were added
+    LitTry { dst: usize, v: MVal, some: bool },
     /// five pushes in a row, issued as one operation (two growth boundaries of a short list fall
     /// inside one window of another thread's operation); each push is atomic on its own
     PushMany { h: usize, vals: Vec<MVal> },
@@ -314,6 +317,13 @@ impl SeqModel {
                 Some(id) => Obs::OptNum(self.heap.index_of(id, v).map(|x| x as u64)),
                 None => Obs::Skipped,
             },
+            Op::LitTry { dst, v, some } => {
+                if *some {
+                    let id = self.heap.new_list(vec![v.clone(), v.clone(), v.clone()]);
+                    self.slots[*dst] = Some(id);
+                }
+                Obs::Bool(*some)
+            }
             Op::PushMany { h, vals } => match self.lid(*h) {
                 Some(id) => {
                     self.heap.lists[id].extend(vals.iter().cloned());
